@@ -219,31 +219,37 @@ structure Dest where
 def resolveFrom (cfg : Cfg) (st : St) (f : Str) : Except Err (Option (List Str × Tree)) :=
   if cfg.withFullPath then findFullPath cfg.fsep st.tree f else findPath cfg.fsep st.tree f
 
+/-- "To node found": same node / merge children / merge leaves / overriding -/
+def decideExisting (cfg : Cfg) (st : St) (fp dp : List Str) : Except Err Dest :=
+  if st.src.isNone && fp == dp then                 -- from_node == to_node
+    if cfg.mergeChildren then .ok ⟨removeAt dp st.dst, st.next, parentOf dp, true⟩
+    else if cfg.mergeLeaves then .ok ⟨st.dst, st.next, parentOf dp, false⟩
+    else .error .tree
+  else if cfg.mergeChildren then
+    if !cfg.overriding then .ok ⟨st.dst, st.next, some dp, true⟩
+    else .ok ⟨removeAt dp st.dst, st.next, parentOf dp, false⟩
+  else if cfg.mergeLeaves then
+    if !cfg.overriding then .ok ⟨st.dst, st.next, some dp, false⟩
+    else .ok ⟨modifyAt dp (setKids []) st.dst, st.next, some dp, false⟩
+  else
+    if !cfg.overriding then .error .tree
+    else .ok ⟨removeAt dp st.dst, st.next, parentOf dp, false⟩
+
+/-- "To node not found": create the parent path -/
+def decideMissing (cfg : Cfg) (st : St) (tp : Str) : Except Err Dest :=
+  match addPath cfg.tsep st.dst st.next (join cfg.tsep (splitOn cfg.tsep tp).dropLast) with
+  | .error e => .error e
+  | .ok x => .ok ⟨x.1, x.2.1, some x.2.2, cfg.mergeChildren⟩
+
 def decideTo (cfg : Cfg) (st : St) (fp : List Str) (toPath : Option Str) : Except Err Dest :=
   match toPath with
   | none => .ok ⟨st.dst, st.next, none, cfg.mergeChildren⟩
-  | some [] => .ok ⟨st.dst, st.next, none, cfg.mergeChildren⟩
   | some tp =>
+    if tp = [] then .ok ⟨st.dst, st.next, none, cfg.mergeChildren⟩ else
     match findFullPath cfg.tsep st.dst tp with
     | .error e => .error e
-    | .ok (some (dp, _)) =>
-      if st.src.isNone && fp == dp then                 -- from_node == to_node
-        if cfg.mergeChildren then .ok ⟨removeAt dp st.dst, st.next, parentOf dp, true⟩
-        else if cfg.mergeLeaves then .ok ⟨st.dst, st.next, parentOf dp, false⟩
-        else .error .tree
-      else if cfg.mergeChildren then
-        if !cfg.overriding then .ok ⟨st.dst, st.next, some dp, true⟩
-        else .ok ⟨removeAt dp st.dst, st.next, parentOf dp, false⟩
-      else if cfg.mergeLeaves then
-        if !cfg.overriding then .ok ⟨st.dst, st.next, some dp, false⟩
-        else .ok ⟨modifyAt dp (setKids []) st.dst, st.next, some dp, false⟩
-      else
-        if !cfg.overriding then .error .tree
-        else .ok ⟨removeAt dp st.dst, st.next, parentOf dp, false⟩
-    | .ok none =>
-      match addPath cfg.tsep st.dst st.next (join cfg.tsep (splitOn cfg.tsep tp).dropLast) with
-      | .error e => .error e
-      | .ok x => .ok ⟨x.1, x.2.1, some x.2.2, cfg.mergeChildren⟩
+    | .ok (some (dp, _)) => decideExisting cfg st fp dp
+    | .ok none => decideMissing cfg st tp
 
 /-- `c.parent = P` for a node `c` that is not (or no longer) a child anywhere in the tree:
 duplicate-name check of `Node`, then append as last child -/
@@ -266,6 +272,45 @@ def removeAll : List (List Str) → Tree → Tree
   | [], t => t
   | p :: ps, t => removeAll ps (removeAt p t)
 
+/-- `LoopError` of the parent setter: the object to attach still sits in the tree at `fp` and the
+new parent is that node or lies below it -/
+def loops (live : Bool) (fp pp : List Str) : Bool := live && fp.isPrefixOf pp
+
+/-- `_merge_children`: the children of `Fc` go under `to_node`, then `from_node.parent = None` -/
+def attachChildren (cfg : Cfg) (live : Bool) (fp : List Str) (Fc : Tree) (d : Dest) :
+    Except Err Tree :=
+  match d.parent with
+  | none => .error .other                       -- `to_node.node_name` on `None`
+  | some pp =>
+    if loops live fp pp then .error .other else
+    match attachAll pp (Fc.children.map (fun c => if cfg.deleteChildren then setKids [] c else c))
+        d.dst with
+    | .error e => .error e
+    | .ok t => .ok (if live then removeAt fp t else t)
+
+/-- `merge_leaves`: every leaf of `Fc` goes under `to_node` -/
+def attachLeaves (live : Bool) (fp : List Str) (Fc : Tree) (d : Dest) : Except Err Tree :=
+  match d.parent with
+  | none => .error .other
+  | some pp =>
+    if loops live fp pp then .error .other else
+    if Fc.children.isEmpty then
+      attachOne pp Fc (if live then removeAt fp d.dst else d.dst)
+    else
+      match attachAll pp ((leavesRel Fc).map (·.2)) d.dst with
+      | .error e => .error e
+      | .ok t => .ok (if live then modifyAt fp (removeAll ((leavesRel Fc).map (·.1))) t else t)
+
+/-- `from_node.parent = to_node` for the (possibly stripped) node `Fm`; `t0` is the tree after
+`del from_node.children` -/
+def attachNode (live : Bool) (fp : List Str) (Fm : Tree) (t0 : Tree) (parent : Option (List Str)) :
+    Except Err Tree :=
+  match parent with
+  | none => .ok (if live then removeAt fp t0 else t0)
+  | some pp =>
+    if loops live fp pp then .error .other else
+    attachOne pp Fm (if live then removeAt fp t0 else t0)
+
 /-- "Reassign from_node to new parent": copy, then children / leaves / node.
 `F0` is the from-node as looked up, `fp` its handle (meaningful when `srcNone`). -/
 def attach (cfg : Cfg) (srcNone : Bool) (d : Dest) (fp : List Str) (F0 : Tree) :
@@ -274,41 +319,15 @@ def attach (cfg : Cfg) (srcNone : Bool) (d : Dest) (fp : List Str) (F0 : Tree) :
   let F := cur.getD F0
   let live := cur.isSome && !cfg.copy          -- the object to attach still sits in the tree at `fp`
   let Fc := if cfg.copy then relabel d.next F else (F, d.next)
-  let k := Fc.2
-  let loops (pp : List Str) : Bool := live && fp.isPrefixOf pp   -- `LoopError` of the parent setter
-  if d.mc then
-    match d.parent with
-    | none => .error .other                     -- `to_node.node_name` on `None`
-    | some pp =>
-      if loops pp then .error .other else
-      let kids := Fc.1.children.map (fun c => if cfg.deleteChildren then setKids [] c else c)
-      match attachAll pp kids d.dst with
-      | .error e => .error e
-      | .ok t => .ok (if live then removeAt fp t else t, k)
-  else if cfg.mergeLeaves then
-    match d.parent with
-    | none => .error .other
-    | some pp =>
-      if loops pp then .error .other else
-      if Fc.1.children.isEmpty then
-        match attachOne pp Fc.1 (if live then removeAt fp d.dst else d.dst) with
-        | .error e => .error e
-        | .ok t => .ok (t, k)
-      else
-        let lv := leavesRel Fc.1
-        match attachAll pp (lv.map (·.2)) d.dst with
-        | .error e => .error e
-        | .ok t => .ok (if live then modifyAt fp (removeAll (lv.map (·.1))) t else t, k)
-  else
-    let Fm := if cfg.deleteChildren then setKids [] Fc.1 else Fc.1
-    let t0 := if live && cfg.deleteChildren then modifyAt fp (setKids []) d.dst else d.dst
-    match d.parent with
-    | none => .ok (if live then removeAt fp t0 else t0, k)
-    | some pp =>
-      if loops pp then .error .other else
-      match attachOne pp Fm (if live then removeAt fp t0 else t0) with
-      | .error e => .error e
-      | .ok t => .ok (t, k)
+  let r := if d.mc then attachChildren cfg live fp Fc.1 d
+           else if cfg.mergeLeaves then attachLeaves live fp Fc.1 d
+           else
+             -- plain shift / copy: `del from_node.children` when asked, then the parent setter
+             attachNode live fp (if cfg.deleteChildren then setKids [] Fc.1 else Fc.1)
+               (if live && cfg.deleteChildren then modifyAt fp (setKids []) d.dst else d.dst) d.parent
+  match r with
+  | .error e => .error e
+  | .ok t => .ok (t, Fc.2)
 
 def step (cfg : Cfg) (st : St) (pr : Str × Option Str) : Except Err St :=
   match resolveFrom cfg st pr.1 with
@@ -471,5 +490,34 @@ def replaceLists (cfg : Cfg) (st : St) (froms : List Str) (tos : List (Option St
     Except Err St :=
   if froms.length ≠ tos.length then .error .value
   else replaceNodes cfg st (froms.zip tos)
+
+/-! ## specification vocabulary (used by the theorems, not by the driver) -/
+
+/-- what the property observes of one node: path below the root, object identity, attributes -/
+abbrev Entry := List Str × Nat × Attrs
+
+/-- the tree as its pre-order list of entries; together with the paths this determines the ordered
+tree (shape, sibling order, names), the ids and the attributes -/
+def flat (t : Tree) : List Entry := (nodesRel t).map (fun pr => (pr.1, pr.2.id, pr.2.attrs))
+def flatL (cs : List Tree) : List Entry := (nodesRelL cs).map (fun pr => (pr.1, pr.2.id, pr.2.attrs))
+
+/-- the path set (paths below the root; `[]` is the root) in pre-order -/
+def paths (t : Tree) : List (List Str) := (flat t).map (·.1)
+/-- the object identities in the tree -/
+def ids (t : Tree) : List Nat := (flat t).map (·.2.1)
+
+/-- `e` lies in the subtree addressed by `p` -/
+def under (p : List Str) (e : Entry) : Bool := p.isPrefixOf e.1
+/-- re-root an entry of a subtree at `p` -/
+def rebase (p : List Str) (e : Entry) : Entry := (p ++ e.1, e.2)
+
+/-- sibling names are unique everywhere (what `Node` maintains) -/
+def SibUnique (t : Tree) : Prop := ∀ pr ∈ nodesRel t, (pr.2.children.map Tree.name).Nodup
+
+/-- the path string bigtree prints for a node: `sep + sep.join(names)` -/
+def pathStr (c : Char) (root : Str) (p : List Str) : Str := pathName [c] (root :: p)
+
+/-- a usable node name for separator `c`: non-empty and free of `c` -/
+def GoodName (c : Char) (n : Str) : Prop := n ≠ [] ∧ c ∉ n
 
 end Modify
